@@ -65,6 +65,8 @@ def step (s : St) (w : List String) : St × String :=
   | ["mode", "asis"] => ({ s with fixed := false }, "ok")
   | ["lock", _, b] => (s, if b == "true" then "ok" else "lock-discipline-violated")
   | ["escape", _, b] => (s, if b == "false" then "ok" else "field-escapes")
+  | ["helpers", b] => (s, if b == "true" then "ok" else "helper-touches-lock-or-spawns")
+  | ["foreignlock", b] => (s, if b == "false" then "ok" else "lock-used-outside-package")
   | ["add", t] =>
     match parseTx? t with
     | some t => reply s (Pool.step s.fixed s.pool (.add t))
